@@ -170,7 +170,8 @@ for name in sorted(os.listdir(os.path.join(HERE, "seeded"))):
         sh("git -C /repo checkout -- .")
     viol = [l for l in r.stdout.splitlines() if l.startswith("violation:")]
     rule = re.search(r"rule=(\S+)", viol[0]).group(1) if viol else ""
-    run = re.search(r"run=(\d+)", viol[0]).group(1) if viol else ""
+    m_run = re.search(r"run=(\d+)", viol[0]) if viol else None
+    run = m_run.group(1) if m_run else ""
     verdict = {0: "MISSED", 1: "CAUGHT"}.get(r.returncode, f"HARNESS-ERROR({r.returncode})")
     if name in OUT_OF_SCOPE and r.returncode == 0:
         verdict = "NOT-APPLICABLE (no behaviour change in the default build configuration)"
